@@ -92,7 +92,10 @@ def r1(ctx: Ctx) -> None:
     for name in ctx.program.cls("Simulator").methods:
         if name.startswith("_trigger_event_") and not _internal_trigger_helper(ctx, name):
             ok = any(name == f"_trigger_event_{r[0]}" for r in ROWS.values())
-            ctx.check(ok, ctx.func(f"Simulator.{name}"), None, f"trigger {name} belongs to a table row", "known trigger", name)
+            if not ok:
+                ctx.unrec(ctx.func(f"Simulator.{name}"), None, f"trigger {name} belongs to a table row", "a trigger that the table of hook points does not know: which hook point it serves, and whether it serves it as the tabulated trigger would, is not decided")
+                continue
+            ctx.holds(ctx.func(f"Simulator.{name}"), None, f"trigger {name} belongs to a table row", "known trigger", name)
 
 
 @rule("C13.R2", "each trigger selects hooks registered for all times plus those registered for the occurrence's time, calls each once, and market-step triggers apply the class/instance filter", "T6 + T7", floor=18)
@@ -343,6 +346,17 @@ def check_call_sites(ctx: Ctx, aspects) -> None:
         trig = [e for e in evs if e.kind == "call" and e.name.startswith("_trigger_event_") and e.name.endswith(("_order", "_cancel"))]
         bef = [e for e in trig if e.name == bname and kw(e, barg, 0) == b.elem]
         aft = [e for e in trig if e.name == aname and kw(e, aarg, 0) == b.accept.term]
+        unknown_trig = [e for e in evs if e.kind == "call" and e.name.startswith("_trigger_event_") and not any(e.name == f"_trigger_event_{r[0]}" for r in ROWS.values())]
+        for e in b.path.walk_events(True):  # ... or one that was folded into the handling as a helper
+            tq = e.data.get("target", "") if e.kind == "note" and e.data.get("what") == "inline" else ""
+            tn = tq.split(".")[-1]
+            if tn.startswith("_trigger_event_") and not any(tn == f"_trigger_event_{r[0]}" for r in ROWS.values()) and not _internal_trigger_helper(ctx, tn):
+                class _N:  # noqa: N801
+                    name = tn
+                unknown_trig.append(_N())
+        if unknown_trig and ("accept" in aspects or "before_order" in aspects):
+            ctx.unrec(f, b.accept.node, f"{b.phase} {b.kind}: before-hook, acceptance, after-hook", f"the handling calls {unknown_trig[0].name}, a trigger the table of hook points does not know")
+            continue
         if "accept" in aspects:
             ok = len(trig) == 2 and len(bef) == 1 and len(aft) == 1 and evs.index(bef[0]) < i < evs.index(aft[0])
             ctx.check(ok, f, b.accept.node, f"{b.phase} {b.kind}: before-hook, acceptance, after-hook", f"{bname}({barg}=<it>) < accept < {aname}({aarg}=<record>)",
@@ -443,6 +457,10 @@ def r4(ctx: Ctx) -> None:
             continue
         n += 1
         dup = [pol for c, pol, _ in p.conds if key(strip_ver(c)) == "(event_hook in self.event_hooks)"]
+        first = strip_ver(p.conds[0][0]) if p.conds else NONE
+        if not dup and first[0] == "cmp" and first[1] == "in" and key(first[2]) == "event_hook" and key(first[3]).startswith("self.") and p.conds[0][1] is False:
+            ctx.unrec(f, f.node, "a hook already registered is rejected before any table is touched", f"the duplicate test looks the hook up in {key(first[3])}, not in self.event_hooks: whether that collection holds exactly the registered hooks is not decided")
+            continue
         ctx.check(bool(dup) and dup[0] is False and p.conds[0][1] is False and key(strip_ver(p.conds[0][0])) == "(event_hook in self.event_hooks)", f, f.node,
                   "a hook already registered is rejected before any table is touched", "first decision: `event_hook in self.event_hooks` is false", p.describe()[:140])
         for l in loops(p):
